@@ -33,6 +33,7 @@ type Config struct {
 	OneShotFirst bool
 	CrossCheck   bool
 	SitePrefix   string
+	Race         bool
 }
 
 type decision struct {
@@ -176,6 +177,7 @@ type pathCtx struct {
 	fmtArgs   map[string][]value
 	counters  map[string]int
 	fifos     map[string]*fifoState
+	race      *raceState
 }
 
 func NewExplorer(cfg Config, ld *Loaded) *Explorer {
@@ -307,6 +309,9 @@ func (ex *Explorer) runPath(w *worker, prefix []decision) {
 		w.inc, _ = NewSolver(solverBin)
 	}
 	w.inc.Send("(push 1)\n")
+	if ex.cfg.Race {
+		p.race = &raceState{cells: map[interface{}]*cellShadow{}, sync: map[interface{}]vclock{}}
+	}
 	p.interp = newInterpreter(ex.loader, p)
 
 	main := p.newThread("main", false)
